@@ -3,43 +3,137 @@
 package node
 
 import (
+	"errors"
 	"strings"
+	rt "time"
 
 	"ergo.services/ergo/gen"
+	"verif.local/vsched"
 	"verif.local/vsched/harn"
 )
 
 // C01 — one callback of a process at a time.
 
-func c01Scenario(name string, qb, tb int, preempt bool, build func(w *World)) {
-	harn.Register(harn.Scenario{Property: "C01", Name: name, Run: func(c *harn.Ctx) *harn.Result {
-		return harn.Explore(c, harn.Sched{QuickBound: qb, ThoroughBound: tb, Preempt: preempt, Cache: true,
+type c01opt struct {
+	qb, tb      int
+	preempt     bool
+	timerBranch bool
+	tiers       string
+	subjects    []string
+}
+
+func c01Scenario(name string, o c01opt, build func(w *World)) {
+	if len(o.subjects) == 0 {
+		o.subjects = []string{"R"}
+	}
+	harn.Register(harn.Scenario{Property: "C01", Name: name, Tiers: o.tiers, Run: func(c *harn.Ctx) *harn.Result {
+		return harn.Explore(c, harn.Sched{QuickBound: o.qb, ThoroughBound: o.tb, Preempt: o.preempt, Cache: true, TimerBranch: o.timerBranch,
 			Body: nodeBody(func(w *World) {
 				build(w)
 				w.Check = func() {
-					r := w.recs["R"]
-					w.serialOracle("R")
-					w.Out("log=%s", strings.Join(r.log, ","))
+					for _, s := range o.subjects {
+						w.serialOracle(s)
+						w.Out("%s=%s", s, strings.Join(w.recs[s].log, ","))
+					}
 				}
 			})})
 	}})
 }
 
+var errE = errors.New("E")
+
 func init() {
-	c01Scenario("send-send", 2, 3, true, func(w *World) {
+	pb := c01opt{qb: 2, tb: 3, preempt: true}
+	c01Scenario("send-send", pb, func(w *World) {
 		pid := w.spawnProbe("R", probeCfg{}, gen.ProcessOptions{})
 		w.ex.Thread("S1", func() { w.n.Send(pid, "a") })
 		w.ex.Thread("S2", func() { w.n.Send(pid, "b") })
 	})
-	c01Scenario("send-kill", 2, 3, true, func(w *World) {
+	c01Scenario("send-send-send", c01opt{qb: 1, tb: 2, preempt: true}, func(w *World) {
+		pid := w.spawnProbe("R", probeCfg{}, gen.ProcessOptions{})
+		w.ex.Thread("S1", func() { w.n.Send(pid, "a") })
+		w.ex.Thread("S2", func() { w.n.Send(pid, "b") })
+		w.ex.Thread("S3", func() { w.n.SendWithPriority(pid, "c", gen.MessagePriorityHigh) })
+	})
+	c01Scenario("send-kill", pb, func(w *World) {
 		pid := w.spawnProbe("R", probeCfg{}, gen.ProcessOptions{})
 		w.ex.Thread("S1", func() { w.n.Send(pid, "a") })
 		w.ex.Thread("K1", func() { w.n.Kill(pid) })
 	})
-	c01Scenario("send-kill-kill", 2, 3, true, func(w *World) {
+	c01Scenario("send-kill-kill", pb, func(w *World) {
 		pid := w.spawnProbe("R", probeCfg{}, gen.ProcessOptions{})
 		w.ex.Thread("S1", func() { w.n.Send(pid, "a") })
 		w.ex.Thread("K1", func() { w.n.Kill(pid) })
 		w.ex.Thread("K2", func() { w.n.Kill(pid) })
 	})
+	c01Scenario("send-exit-kill", pb, func(w *World) {
+		pid := w.spawnProbe("R", probeCfg{}, gen.ProcessOptions{})
+		w.ex.Thread("S1", func() { w.n.Send(pid, "a") })
+		w.ex.Thread("X1", func() { w.n.SendExit(pid, errE) })
+		w.ex.Thread("K1", func() { w.n.Kill(pid) })
+	})
+	c01Scenario("send-fail-send", pb, func(w *World) {
+		pid := w.spawnProbe("R", probeCfg{onMsg: func(p *probe, from gen.PID, m any) error {
+			if m == "fail" {
+				return errE
+			}
+			return nil
+		}}, gen.ProcessOptions{})
+		w.ex.Thread("S1", func() { w.n.Send(pid, "fail") })
+		w.ex.Thread("S2", func() { w.n.Send(pid, "b") })
+	})
+	// delayed send racing with a direct send: the timer is a scheduling alternative
+	c01Scenario("sendafter-send", c01opt{qb: 1, tb: 2, preempt: true, timerBranch: true}, func(w *World) {
+		pid := w.spawnProbe("R", probeCfg{}, gen.ProcessOptions{})
+		w.spawnProbe("H", probeCfg{onMsg: func(p *probe, from gen.PID, m any) error {
+			p.SendAfter(pid, "t", rt.Millisecond)
+			return nil
+		}}, gen.ProcessOptions{})
+		w.ex.Thread("S1", func() { w.n.Send(w.pids["H"], "arm"); w.n.Send(pid, "a") })
+		w.ex.Thread("S2", func() { w.n.Send(pid, "b") })
+	})
+	// R is waiting for a response while it is killed and while more traffic arrives
+	c01Scenario("waitresponse-kill-send", c01opt{qb: 1, tb: 2, preempt: true}, func(w *World) {
+		spid := w.spawnProbe("S", probeCfg{}, gen.ProcessOptions{})
+		pid := w.spawnProbe("R", probeCfg{onMsg: func(p *probe, from gen.PID, m any) error {
+			if m == "docall" {
+				p.Call(spid, "q")
+			}
+			return nil
+		}}, gen.ProcessOptions{})
+		w.ex.Thread("S1", func() { w.n.Send(pid, "docall") })
+		w.ex.Thread("S2", func() { w.n.Send(pid, "b") })
+		w.ex.Thread("K1", func() { w.n.Kill(pid) })
+	})
+	// a process that sends to itself during init while another thread addresses it by name
+	c01Scenario("init-selfsend-name", c01opt{qb: 2, tb: 3, preempt: true}, func(w *World) {
+		r := &rec{name: "R"}
+		w.recs["R"] = r
+		w.ex.Thread("SP", func() {
+			w.n.SpawnRegister("rname", func() gen.ProcessBehavior { return &probe{} }, gen.ProcessOptions{}, probeCfg{rec: r, onInit: func(p *probe) error {
+				p.Send(p.PID(), "self")
+				return nil
+			}})
+		})
+		w.ex.Thread("S1", func() { w.n.Send(gen.Atom("rname"), "a") })
+	})
+	// meta process: two senders to its alias
+	c01Scenario("meta-send-send", pb, func(w *World) {
+		id, _ := w.spawnMeta("R", gen.MetaOptions{})
+		w.ex.Thread("S1", func() { w.n.Send(id, "a") })
+		w.ex.Thread("S2", func() { w.n.Send(id, "b") })
+	})
+	// meta process: Start() returns (=> termination) while a message is being delivered
+	c01Scenario("meta-startreturns-send", pb, func(w *World) {
+		id, mp := w.spawnMeta("R", gen.MetaOptions{})
+		w.ex.Thread("G", func() { mp.start.Open() })
+		w.ex.Thread("S1", func() { w.n.Send(id, "a") })
+	})
+	// meta process: owner terminates (exit signal to the meta) while a message is delivered
+	c01Scenario("meta-ownerkill-send", pb, func(w *World) {
+		id, _ := w.spawnMeta("R", gen.MetaOptions{})
+		w.ex.Thread("K", func() { w.n.Kill(w.pids["PR"]) })
+		w.ex.Thread("S1", func() { w.n.Send(id, "a") })
+	})
+	_ = vsched.OpUser
 }
